@@ -1,6 +1,8 @@
 // C14: packets and payloads behave as values (copy / move / assign / equality).
 #pragma once
 #include <asam_cmp/tecmp_payload.h>
+#include <asam_cmp/can_payload_base.h>
+#include <asam_cmp/ethernet_payload.h>
 
 #include "driver.h"
 #include "gen.h"
@@ -20,6 +22,9 @@ struct Proto  // recipe for a pool object (so that fresh, independent instances 
     std::string cls;  // description class for the signature
     bool hasPayload = true;
     int retypeTo = -1;  // >= 0: after the payload (with its bytes) is stored, its type is changed in place to this 32-bit value
+    int decoded = 0;    // 1: the packet is built the way the decoder builds it, Packet(messageType, message bytes, size), so that the stored
+                        // payload has its concrete class; 2: ... and the application then sets a bus-error flag through the typed class
+                        // (CAN / CAN-FD / Ethernet), a state the validators would refuse
     uint8_t mt = 1, pt = 0x20;
     Bytes bytes;
     uint8_t version = 1, stream = 0, flags = 0, seg = 0;
@@ -30,7 +35,22 @@ struct Proto  // recipe for a pool object (so that fresh, independent instances 
     Packet make() const
     {
         Packet p;
-        if (hasPayload)
+        if (hasPayload && decoded)
+        {
+            Bytes msg(16, 0);
+            msg[13] = pt;
+            wire::set16(msg.data() + 14, static_cast<uint16_t>(bytes.size()));
+            msg.insert(msg.end(), bytes.begin(), bytes.end());
+            p = Packet(static_cast<ASAM::CMP::CmpHeader::MessageType>(mt), msg.data(), msg.size());
+            if (decoded == 2)
+            {
+                if (pt == wire::PT_ETHERNET)
+                    static_cast<ASAM::CMP::EthernetPayload&>(p.getPayload()).setFlag(ASAM::CMP::EthernetPayload::Flags::fcsErr, true);
+                else
+                    static_cast<ASAM::CMP::CanPayloadBase&>(p.getPayload()).setFlag(ASAM::CMP::CanPayloadBase::Flags::crcErr, true);
+            }
+        }
+        else if (hasPayload)
             p.setPayload(Payload(PayloadType(static_cast<ASAM::CMP::CmpHeader::MessageType>(mt), pt), bytes.data(), bytes.size()));
         if (hasPayload && retypeTo >= 0)
             p.getPayload().setType(PayloadType(static_cast<uint32_t>(retypeTo)));
@@ -47,7 +67,7 @@ struct Proto  // recipe for a pool object (so that fresh, independent instances 
     }
     bool sameAs(const Proto& o) const
     {
-        return hasPayload == o.hasPayload && retypeTo == o.retypeTo && (!hasPayload || (mt == o.mt && pt == o.pt && bytes == o.bytes)) && version == o.version && stream == o.stream && flags == o.flags && seg == o.seg &&
+        return hasPayload == o.hasPayload && retypeTo == o.retypeTo && decoded == o.decoded && (!hasPayload || (mt == o.mt && pt == o.pt && bytes == o.bytes)) && version == o.version && stream == o.stream && flags == o.flags && seg == o.seg &&
                device == o.device && seq == o.seq && vendor == o.vendor && ts == o.ts && ifid == o.ifid;
     }
 };
@@ -147,6 +167,24 @@ inline std::vector<Proto> makePool(Rng& r, bool randomPool)
                 p.flags = r.byte();
             if (r.chance(1, 3))
                 p.ts = r.next();
+            pool.push_back(p);
+        }
+    // packets built the way the decoder builds them (the stored payload has its concrete class), untouched and with a bus-error
+    // flag set by the application afterwards
+    for (Kind k : {K_CAN, K_CANFD, K_ETH, K_LIN})
+        for (int mode = 1; mode <= 2; ++mode)
+        {
+            if (k == K_LIN && mode == 2)
+                continue;
+            Proto p;
+            p.cls = std::string(mode == 1 ? "decoder-built-" : "decoder-built-then-flagged-") + kindName(k);
+            p.decoded = mode;
+            p.mt = kindMsgType(k, r);
+            p.pt = kindPayloadType(k, r);
+            p.bytes = genPayload(k, kindMinLen(k) + r.below(12), r);
+            p.version = 2;
+            p.ts = r.next();
+            p.ifid = static_cast<uint32_t>(r.next());
             pool.push_back(p);
         }
     return pool;
@@ -630,6 +668,41 @@ inline void round(Ctx& c, long idx)
     run.payloads(r);
     if (idx % 4 == 0)
         run.bigPayloadEquality(r);
+    if (idx % 4 == 1)
+    {
+        // value semantics do not depend on how large the payload is: a sub-pool of packets with payloads of 1 KiB .. 100 000 bytes
+        // (sizes around the powers of two where "large objects are shared / small ones copied" policies switch) goes through
+        // every operation pair and the stale-handle checks as well
+        static const size_t sizes[] = {1023, 1024, 2047, 2048, 2049, 4096, 6000, 16384, 60000, 65535, 65536, 100000};
+        std::vector<Proto> big;
+        for (int k = 0; k < 4; ++k)
+        {
+            Proto p;
+            size_t n = sizes[(static_cast<size_t>(idx / 4) * 4 + static_cast<size_t>(k)) % 12];
+            p.cls = "large-payload";
+            p.mt = (k % 2) ? 3 : 1;
+            p.pt = static_cast<uint8_t>(0x60 + k);
+            p.bytes = r.bytes(n);
+            p.version = static_cast<uint8_t>(1 + k);
+            p.ts = r.next();
+            p.ifid = static_cast<uint32_t>(r.next());
+            p.flags = static_cast<uint8_t>(r.next()) & 0xB3;
+            big.push_back(p);
+        }
+        big.push_back(big[0]);  // an equal-looking twin
+        for (size_t i = 0; i < big.size(); ++i)
+        {
+            run.selfAssign(big[i]);
+            for (size_t j = 0; j < big.size(); ++j)
+            {
+                for (int op = 0; op < 4; ++op)
+                    run.pair(big[i], big[j], op);
+                run.staleHandle(big[i], big[j], 0);
+                run.staleHandle(big[i], big[j], 2);
+            }
+        }
+        c.count("large_payload_sub_pools");
+    }
     c.count("rounds");
     c.count("pool_objects", pool.size());
     if (c.samples.size() < 2)
